@@ -251,7 +251,7 @@ fn err_kind(e: &str) -> String {
 pub fn meta(_tier: Tier) -> Meta {
     Meta {
         id: "C04",
-        level: "model_checking",
+        level: "exploration",
         rule: "context p1..p5 (flat world with the witness-dependent lock in genesis and one epoch of cellbase maturity): cells created in block 3, a spent genesis cell, a dep-group cell with a good and a bad member list, a cell under a lock whose code does not exist; every candidate id proposed in p3. Catalogue (for each rule the boundary and the violation): inputs unknown / dead / out of range / twice / created in block 3 / created earlier or later in the same block; cell deps live / unknown / dead / group / group with unknown member / unknown group / none; header deps main-chain / unknown / side-branch; capacity outputs = inputs, +1, output exactly occupied, occupied-1; since absolute block 6..9, relative block 3..6, absolute epoch 1+1/4..1+3/4, relative epoch 2/4, 3/4, 1, malformed epoch, absolute / relative time far past and far future, reserved flag, metric 11, zero; lock code missing, witness that makes the lock succeed / fail / absent, output type code missing. Each candidate is committed in block 6 on a node that received p1..p5 directly and on a node that after p3 followed a block q4 spending cells created in block 3 and was reorganised back by p4, p5 (those cells are restored by the rollback); and submitted to the pool of a node at tip 5. Expected: block verdict by construction (commit position 6, epoch 1+2/4); pool verdict by construction at the position the pool assumes (block 6 for a proposed id, block 8 for the unproposed variants, the tip's epoch); both nodes agree; a refused block leaves the tip unchanged.",
         assumptions: &["zero-fee and same-block parent/child candidates are not compared in the pool (fee policy / one submission at a time)", "cellbase maturity is exercised in C14's maturity family", "median-time since values are taken far from the boundary"],
         bounds: json!({"commit_position": 6}),
